@@ -14,5 +14,8 @@ find $V/harness/corpus_c17 -name Cargo.toml -not -path '*/target/*' -exec sed -i
 cd $V
 for id in "$@"; do
   echo "=== $id against $patch"
-  bin/check $id --tier ${TIER:-quick} 2>&1 | grep -v "^\[check\]" | cut -c1-260 | grep "VIOLATION\|^OK\|TOOL-ERROR\|KNOWN" | head -${LINES_SHOWN:-4}
+  bin/check $id --tier ${TIER:-quick} > $V/last-$id.log 2>&1 || true
+  grep "^VIOLATION" $V/last-$id.log | cut -c1-260 | head -${LINES_SHOWN:-3}
+  echo "  (violations: $(grep -c '^VIOLATION' $V/last-$id.log), known-finding lines: $(grep -c '^KNOWN' $V/last-$id.log))"
+  grep "^OK\|TOOL-ERROR" $V/last-$id.log | cut -c1-260 | head -3
 done
